@@ -12,14 +12,17 @@
 //	restart <seed>        => ok      abandon the instance (crash), new instance over the same store, Start();
 //	                                 Query enumerates the sorted keys permuted by the Lehmer code of <seed>
 //	tick <seed> <q>       => <epoch> lease mode: AdvanceEpoch + cleanupExpiredFromStore (<q> = 1: its Query fails)
-//	remoteput s3 <hex>/<len> <epoch> => ok <get after> <owner of the prefix before> <current epoch>
+//	remoteput s3 <hex>/<len> <epoch> => ok <get after> <GetByPrefix of the prefix before> <subscriber whose STORE record
+//	                                    names the prefix before> <current epoch>
 //	remotedel s3          => ok
-//	audit                 => s1=<store>|<get>,s2=…   store = <hex>/<len>@<epoch> | -   get = <hex>/<len> | -
+//	audit                 => s1=<store>|<get>,s2=…;<unit>=<GetByPrefix>,…
+//	                         store = <hex>/<len>@<epoch> | -   get = <hex>/<len> | -   one reverse row per unit of the pool
 //
 //	newrt bitmap <fam> <basehex> <ones> <plen> | newrt epoch <basehex> <ones> <plen> <grace>   => ok | invalid
 //	  alloc|release|renew s3, advance, setalloc s3 <hex>/<len>, lookup s3, owner <hex>[/<len>], stats
 //	  fork                => ok      from here on every op runs on the allocator AND on a copy restored from
 //	                                 its JSON; the observation is  <original> | <restored>
+//	  probe <nsubs>       => every read-only query at once: s1=<lookup>,…;<unit>=<owner>,…;<stats>
 package main
 
 import (
@@ -273,7 +276,50 @@ func (comp) Gen(r *rand.Rand, tier string, emit func([]string)) {
 			}
 		}
 		for j, m := 0, 3+r.Intn(30); j < m; j++ {
-			seq = append(seq, g.randOp(r, subs))
+			op := g.randOp(r, subs)
+			seq = append(seq, op)
+			if strings.HasPrefix(op, "remoteput") || strings.HasPrefix(op, "restart") || strings.HasPrefix(op, "remotedel") {
+				seq = append(seq, "audit")
+			}
+		}
+		seq = append(seq, "audit", fmt.Sprintf("restart %d", r.Intn(720)), "audit", "stats")
+		emit(seq)
+	}
+	// replicated MOVES: a remote put moves a known subscriber to another prefix, a second remote put hands the
+	// vacated prefix to a different subscriber; every step audited in both directions, then a restart
+	for i := 0; i < n/8; i++ {
+		g := geos[r.Intn(len(geos))]
+		subs := 3 + r.Intn(3)
+		u := g.units()
+		lo := int64(0)
+		if g.mode == "lease" {
+			lo, u = 1, u-2 // usable slots
+		}
+		perm := r.Perm(int(u))
+		seq := []string{g.newOp(subs)}
+		holders := 1 + r.Intn(2)
+		for k := 1; k <= holders; k++ {
+			seq = append(seq, fmt.Sprintf("alloc s%d 0", k))
+		}
+		seq = append(seq, "audit")
+		mover := 1 + r.Intn(holders)
+		other := holders + 1
+		free := lo + int64(perm[0])
+		if free < lo+int64(holders) && int(u) > holders { // prefer a unit nobody holds yet
+			free = lo + int64(holders) + int64(perm[0])%(u-int64(holders))
+		}
+		vacated := lo + int64(mover-1) // first-free allocation gave unit (mover-1) to s<mover>
+		seq = append(seq, fmt.Sprintf("remoteput s%d %s 1000000", mover, g.addrTok(free)), "audit")
+		if r.Intn(3) == 0 {
+			seq = append(seq, fmt.Sprintf("restart %d", r.Intn(720)), "audit")
+		}
+		seq = append(seq, fmt.Sprintf("remoteput s%d %s 1000000", other, g.addrTok(vacated)), "audit")
+		for j, m := 0, r.Intn(6); j < m; j++ {
+			op := g.randOp(r, subs)
+			seq = append(seq, op)
+			if strings.HasPrefix(op, "remoteput") || strings.HasPrefix(op, "restart") {
+				seq = append(seq, "audit")
+			}
 		}
 		seq = append(seq, "audit", fmt.Sprintf("restart %d", r.Intn(720)), "audit", "stats")
 		emit(seq)
@@ -291,9 +337,14 @@ func genRT(r *rand.Rand) []string {
 	subs := 2 + r.Intn(4)
 	var seq []string
 	var ops func() string
+	var move func() []string
 	if r.Intn(2) == 0 {
 		g := []geo{{"session", 32, "10.0.0.0", 29, 32, 0}, {"session", 32, "100.64.0.16", 28, 30, 0}, {"session", 128, "2001:db8:0:8::", 62, 64, 0}}[r.Intn(3)]
 		seq = append(seq, fmt.Sprintf("newrt bitmap %d %s %d %d", g.fam, g.baseNum().Text(16), g.ones, g.plen))
+		move = func() []string {
+			// s1 takes the first free unit, then is moved to the last unit of the pool
+			return []string{"alloc s1", "setalloc s1 " + g.addrTok(g.units()-1)}
+		}
 		ops = func() string {
 			s := fmt.Sprintf("s%d", 1+r.Intn(subs))
 			switch x := r.Intn(100); {
@@ -338,11 +389,19 @@ func genRT(r *rand.Rand) []string {
 	for j, m := 0, 2+r.Intn(14); j < m; j++ {
 		seq = append(seq, ops())
 	}
-	seq = append(seq, "fork")
+	if move != nil && r.Intn(2) == 0 {
+		// the fork right after a SetAllocation that moves a holder
+		seq = append(seq, move()...)
+	}
+	probe := fmt.Sprintf("probe %d", subs)
+	seq = append(seq, "fork", probe)
 	for j, m := 0, 2+r.Intn(12); j < m; j++ {
 		seq = append(seq, ops())
+		if r.Intn(3) == 0 {
+			seq = append(seq, probe)
+		}
 	}
-	seq = append(seq, "stats")
+	seq = append(seq, probe)
 	return seq
 }
 
@@ -432,6 +491,37 @@ func (r *run) start(seed uint64) string {
 }
 
 func (r *run) key(sub string) string { return "/allocation/p/" + sub }
+
+func (r *run) storeRec(sub string) *allocator.DistributedAllocation {
+	v, ok := r.st.data[r.key(sub)]
+	if !ok {
+		return nil
+	}
+	var rec allocator.DistributedAllocation
+	if err := json.Unmarshal(v, &rec); err != nil {
+		return nil
+	}
+	return &rec
+}
+
+func (r *run) storeNet(sub string) *net.IPNet {
+	rec := r.storeRec(sub)
+	if rec == nil {
+		return nil
+	}
+	_, n, err := net.ParseCIDR(rec.Prefix)
+	if err != nil {
+		return nil
+	}
+	return n
+}
+
+func (r *run) storeEpoch(sub string) uint64 {
+	if rec := r.storeRec(sub); rec != nil {
+		return rec.Epoch
+	}
+	return 0
+}
 
 func flags(tok string) []bool {
 	var out []bool
@@ -527,13 +617,24 @@ func (r *run) Do(op string) string {
 		if s, ok := r.da.GetByPrefix(pfx); ok {
 			before = s
 		}
+		// who holds the announced prefix according to the STORE (ParseCIDR masks the announcement)
+		storeBefore := "none"
+		if _, want, err := net.ParseCIDR(pfx.String()); err == nil {
+			for i := 1; i <= r.nsubs; i++ {
+				sub := fmt.Sprintf("s%d", i)
+				if n := r.storeNet(sub); n != nil && n.String() == want.String() {
+					storeBefore = sub
+					break
+				}
+			}
+		}
 		val, _ := json.Marshal(&allocator.DistributedAllocation{PoolID: "p", SubscriberID: f[1], Prefix: pfx.String(), Epoch: ep})
 		r.st.fails = nil
 		r.st.data[r.key(f[1])] = val
 		if r.st.cb != nil {
 			r.st.cb(r.key(f[1]), val, false)
 		}
-		return fmt.Sprintf("ok %s %s %d", r.getTok(f[1]), before, r.da.GetCurrentEpoch())
+		return fmt.Sprintf("ok %s %s %s %d", r.getTok(f[1]), before, storeBefore, r.da.GetCurrentEpoch())
 	case "remotedel":
 		delete(r.st.data, r.key(f[1]))
 		if r.st.cb != nil {
@@ -545,17 +646,22 @@ func (r *run) Do(op string) string {
 		for i := 1; i <= r.nsubs; i++ {
 			sub := fmt.Sprintf("s%d", i)
 			sv := "-"
-			if v, ok := r.st.data[r.key(sub)]; ok {
-				var rec allocator.DistributedAllocation
-				if err := json.Unmarshal(v, &rec); err == nil {
-					if _, n, err := net.ParseCIDR(rec.Prefix); err == nil {
-						sv = fmt.Sprintf("%s@%d", showNet(n, r.g.fam), rec.Epoch)
-					}
-				}
+			if n := r.storeNet(sub); n != nil {
+				sv = fmt.Sprintf("%s@%d", showNet(n, r.g.fam), r.storeEpoch(sub))
 			}
 			parts = append(parts, fmt.Sprintf("%s=%s|%s", sub, sv, r.getTok(sub)))
 		}
-		return strings.Join(parts, ",")
+		// the reverse direction: who answers for every unit of the pool
+		var rev []string
+		for i := int64(0); i < r.g.units(); i++ {
+			tok := r.g.addrTok(i)
+			o := "-"
+			if s, ok := r.da.GetByPrefix(parseNet(tok, r.g.fam)); ok {
+				o = s
+			}
+			rev = append(rev, tok+"="+o)
+		}
+		return strings.Join(parts, ",") + ";" + strings.Join(rev, ",")
 	}
 	return "badop"
 }
@@ -564,7 +670,25 @@ func (r *run) Do(op string) string {
 
 type rtAlloc interface {
 	do(f []string) string
+	probe(f []string) string
 	clone() (rtAlloc, error)
+}
+
+// probeWith asks every read-only question at once: lookup of s1..sN, owner of every unit, stats
+func probeWith(a rtAlloc, f []string, units []string) string {
+	n := 0
+	if len(f) > 1 {
+		n, _ = strconv.Atoi(f[1])
+	}
+	var fw, rv []string
+	for i := 1; i <= n; i++ {
+		sub := fmt.Sprintf("s%d", i)
+		fw = append(fw, sub+"="+a.do([]string{"lookup", sub}))
+	}
+	for _, u := range units {
+		rv = append(rv, u+"="+a.do([]string{"owner", u}))
+	}
+	return strings.Join(fw, ",") + ";" + strings.Join(rv, ",") + ";" + strings.ReplaceAll(a.do([]string{"stats"}), " ", "/")
 }
 
 type rtRun struct {
@@ -572,11 +696,18 @@ type rtRun struct {
 }
 
 type rtBitmap struct {
-	a   *allocator.IPAllocator
-	fam int
+	a     *allocator.IPAllocator
+	fam   int
+	units []string
 }
 
-type rtEpoch struct{ a *allocator.EpochBitmapAllocator }
+type rtEpoch struct {
+	a     *allocator.EpochBitmapAllocator
+	units []string
+}
+
+func (b *rtBitmap) probe(f []string) string { return probeWith(b, f, b.units) }
+func (e *rtEpoch) probe(f []string) string  { return probeWith(e, f, e.units) }
 
 func (r *rtRun) new(f []string) string {
 	switch {
@@ -592,7 +723,12 @@ func (r *rtRun) new(f []string) string {
 		if err != nil {
 			return "invalid"
 		}
-		r.a = &rtBitmap{a, fam}
+		g := geo{"session", fam, ipOf(base, fam).String(), ones, pl, 0}
+		var units []string
+		for i := int64(0); i < g.units() && i < 64; i++ {
+			units = append(units, g.addrTok(i))
+		}
+		r.a = &rtBitmap{a, fam, units}
 		return "ok"
 	case len(f) == 6 && f[1] == "epoch":
 		base, ok := new(big.Int).SetString(f[2], 16)
@@ -607,7 +743,13 @@ func (r *rtRun) new(f []string) string {
 		if err != nil {
 			return "invalid"
 		}
-		r.a = &rtEpoch{a}
+		g := geo{"lease", 32, ipOf(base, 32).String(), ones, pl, int(grace)}
+		var units []string
+		for i := int64(0); i < g.units() && i < 64; i++ {
+			t := g.addrTok(i)
+			units = append(units, t[:strings.Index(t, "/")])
+		}
+		r.a = &rtEpoch{a, units}
 		return "ok"
 	}
 	return "badop"
@@ -625,11 +767,17 @@ func (r *rtRun) do(f []string) string {
 		r.b = b
 		return "ok"
 	}
-	x := r.a.do(f)
+	one := func(a rtAlloc) string {
+		if f[0] == "probe" {
+			return a.probe(f)
+		}
+		return a.do(f)
+	}
+	x := one(r.a)
 	if r.b == nil {
 		return x
 	}
-	return x + " | " + r.b.do(f)
+	return x + " | " + one(r.b)
 }
 
 func (b *rtBitmap) clone() (rtAlloc, error) {
@@ -641,7 +789,7 @@ func (b *rtBitmap) clone() (rtAlloc, error) {
 	if err := c.UnmarshalJSON(data); err != nil {
 		return nil, err
 	}
-	return &rtBitmap{c, b.fam}, nil
+	return &rtBitmap{c, b.fam, b.units}, nil
 }
 
 func (b *rtBitmap) do(f []string) string {
@@ -691,7 +839,7 @@ func (e *rtEpoch) clone() (rtAlloc, error) {
 	if err := json.Unmarshal(data, &c); err != nil {
 		return nil, err
 	}
-	return &rtEpoch{&c}, nil
+	return &rtEpoch{&c, e.units}, nil
 }
 
 func (e *rtEpoch) do(f []string) string {
